@@ -421,3 +421,53 @@ func (r *Region) Leaves(v ssa.Value) []ssa.Value {
 	walk(v, 0)
 	return out
 }
+
+// SuccessReturns: the returns of the root, or – where the root returns the
+// results of an inlined helper unchanged (`return helper(…)`) – of that helper,
+// on which the last (error) result is the nil constant; with their values.
+type retVals struct {
+	Ret  *ssa.Return
+	Vals []ssa.Value
+}
+
+func (r *Region) SuccessReturns() []retVals {
+	var out []retVals
+	var visit func(fn *ssa.Function, d int)
+	visit = func(fn *ssa.Function, d int) {
+		for _, ret := range returnsOf(fn) {
+			vals := returnValues(ret)
+			if len(vals) == 0 {
+				continue
+			}
+			last := vals[len(vals)-1]
+			if isNilConst(last) {
+				out = append(out, retVals{ret, vals})
+				continue
+			}
+			// pass-through of an inlined helper's results
+			var call *ssa.Call
+			pass := d < 3
+			for i, v := range vals {
+				e, ok := v.(*ssa.Extract)
+				if !ok || e.Index != i {
+					pass = false
+					break
+				}
+				c, ok := e.Tuple.(*ssa.Call)
+				if !ok || (call != nil && c != call) {
+					pass = false
+					break
+				}
+				call = c
+			}
+			if !pass || call == nil {
+				continue
+			}
+			if cal := regionCallee(call); cal != nil && r.site[cal] == ssa.CallInstruction(call) {
+				visit(cal, d+1)
+			}
+		}
+	}
+	visit(r.Root, 0)
+	return out
+}
